@@ -149,7 +149,7 @@ func runFiletree(seed int64, histories, steps int, out *Emitter) {
 				}
 				post, bad := c.ftAbs()
 				out.Emit(map[string]interface{}{"mod": "filetree", "hist": hi, "i": i, "h": c.H, "pre": pre, "op": "restart", "ok": true, "post": post,
-					"badKeys": bad, "respPath": "", "actors": actors})
+					"badKeys": bad, "respPath": "", "actors": actors, "genesis": c.ftGenesisJ()})
 				out.Count("filetree.restart", true)
 			}
 			if r.Intn(10) == 0 {
@@ -384,4 +384,24 @@ func runFiletree(seed int64, histories, steps int, out *Emitter) {
 		}
 		c.Close()
 	}
+}
+
+// ftGenesisJ decodes the filetree part of the last exported application state in the exported order.
+func (c *Chain) ftGenesisJ() interface{} {
+	var app map[string]json.RawMessage
+	if json.Unmarshal(c.LastExport, &app) != nil {
+		return nil
+	}
+	var gs fttypes.GenesisState
+	if err := c.A.AppCodec().UnmarshalJSON(app[fttypes.ModuleName], &gs); err != nil {
+		return map[string]interface{}{"error": err.Error()}
+	}
+	fs, ks := []interface{}{}, []interface{}{}
+	for _, f := range gs.FilesList {
+		fs = append(fs, ftEntryJ(f))
+	}
+	for _, k := range gs.PubKeyList {
+		ks = append(ks, map[string]interface{}{"address": k.Address, "key": k.Key})
+	}
+	return map[string]interface{}{"filesList": fs, "pubKeyList": ks, "validateOk": gs.Validate() == nil}
 }
